@@ -229,10 +229,25 @@ def deadlinesTakeover (w : World) (h : Hyp) (t : Nat) : World :=
        | _, _ => acc)
     | _, _ => acc) w
 
+/-- How long a round can be alive: jitter, three backoffs, four attempts of up to three operations each, and as much
+    again for an attempt of another round holding the instance's semaphore (fault-free store, latency bound `L`). -/
+def roundLife (L : Nat) : Nat := 1000000000 + 24 * L
+
+def addSpawn (x : InstW) (t L : Nat) : InstW :=
+  { x with spawns := t :: x.spawns.filter (fun s => s + roundLife L ≥ t),
+           spacingSuspect := match x.spacingSuspect with | some (d, m) => if d = t then none else some (d, m) | none => none }
+
 def deadlines (w : World) (t : Nat) : World :=
   w.insts.foldl (fun acc x =>
     -- C17: an attempt is one Create; a round is at most four attempts; Start makes one attempt of its own; a takeover
     -- opportunity seen by the watcher makes one: the instance never issues more Creates than these account for
+    -- (judged when the clock has moved on: a watch notification logged at the very instant of the Create is its cause)
+    let acc := match x.jitterSuspect with
+      | some (d, msg) => if d < t then failW (acc.updInst x.cfg.id fun y => { y with jitterSuspect := none }) "C17" "round-without-jitter" msg else acc
+      | none => acc
+    let acc := match x.spacingSuspect with
+      | some (d, msg) => if d < t then failW (acc.updInst x.cfg.id fun y => { y with spacingSuspect := none }) "C17" "attempts-not-spaced" msg else acc
+      | none => acc
     let acc := match x.createDebtAt with
       | some d => if d < t then
             if x.createCredit < 0 then
@@ -355,18 +370,30 @@ def step (m : MState) (e : TEv) : MState :=
         -- instance's first for two seconds (no round of its own can still be running), issued less than that after the
         -- periodic check that found the key vacant, with no watch notification in the last jitter window that could have
         -- started a round earlier, belongs to a round that did not wait
-        let w := if kind == OpKind.create && !x.flag then
-            checkW w (!((match x.lastMissAt, x.trigs with
+        let x := if kind == OpKind.create && !x.flag then
+            if ((match x.lastMissAt, x.trigs with
                          | some r, [t1] => r == t1 && decide (e.t < r + 10000000)
                          | some r, t1 :: t0 :: _ => r == t1 && decide (e.t < r + 10000000) && decide (t0 + 100000000 + m.hyp.maxLat < e.t)
                          | _, _ => false) &&
-                       (match x.lastCreateAt with | some c => decide (c + 2000000000 < e.t) | none => true) && m.hyp.maxLat > 0))
-              "C17" "round-without-jitter" s!"instance {i}: Create {repr (x.lastMissAt.map fun r => e.t - r)} ns after the periodic check that found the key vacant"
-          else w
+                       (match x.lastCreateAt with | some c => decide (c + 2000000000 < e.t) | none => true) && m.hyp.maxLat > 0)
+            then { x with jitterSuspect := some (e.t, s!"instance {i}: Create {repr (x.lastMissAt.map fun r => e.t - r)} ns after the periodic check that found the key vacant") }
+            else x
+          else x
         -- C17: an attempt is one Create; a round is at most four attempts; Start makes one attempt of its own; a takeover
         -- opportunity seen by the watcher makes one: the instance never issues more Creates than these account for
         -- (the harness logs a notification once the library has taken it from the channel - after the calls its handler made
         -- at once; a Create that nothing accounts for yet is judged when the clock has moved on: `deadlines`)
+        -- C17: the attempts of a round are separated by the backoff (at least 45 ms: 50 ms less 10 %).  When one round (or
+        -- one takeover attempt) is all that can be alive - a single spawn in the life span of a round, fault-free store - two
+        -- Creates after it that are closer than that cannot both be its attempts
+        let x := if kind == OpKind.create && m.hyp.maxLat > 0 && m.hyp.faultsEnd == 0 && !x.cut then
+            match x.lastCreateAt, x.spawns.filter (fun sp => sp + roundLife m.hyp.maxLat ≥ e.t) with
+            | some c, [sp] =>
+              if sp ≤ c ∧ c + 45000000 > e.t then
+                { x with spacingSuspect := some (e.t, s!"instance {i}: Creates at {c} and {e.t}, {e.t - c} ns apart, and the only round that can be running began at {sp}: its attempts are at least 45 ms apart") }
+              else x
+            | _, _ => x
+          else x
         let x := if kind == OpKind.create then { x with lastCreateAt := some e.t, lastMissAt := none, createCredit := x.createCredit - 1, createDebtAt := if x.createCredit ≤ 0 ∧ x.createDebtAt.isNone then some e.t else x.createDebtAt } else x
         let x := { x with recentCalls := recent, runToks := (match val with | .own id tok _ => if id == i && !x.runToks.contains tok then tok :: x.runToks else x.runToks | _ => x.runToks) }
         let w := w.setInst x
@@ -450,14 +477,14 @@ def step (m : MState) (e : TEv) : MState :=
       let w := { w0 with ops := w0.ops.filter (·.id ≠ op) }
       let w := match r, w.inst? p.inst with
         | .err k, some x =>
-          let x := if p.site == "checkKeyAndReelect" then { x with createCredit := x.createCredit + 4 } else x
+          let x := if p.site == "checkKeyAndReelect" then { (addSpawn x e.t m.hyp.maxLat) with createCredit := x.createCredit + 4 } else x
           let w := w.setInst x
           if (p.site == "checkKeyAndReelect" || p.site == "watchLoop") && !x.flag then
             w.setInst { x with trigs := (e.t :: x.trigs).take 2, lastMissAt := if k == ErrKind.notfound && p.site == "checkKeyAndReelect" then some e.t else x.lastMissAt }
           else w
         | .ok _ v, some x =>
           let x := if p.site == "checkKeyAndReelect" && (match v with | none | some .empty => true | _ => false)
-                   then { x with createCredit := x.createCredit + 4 } else x
+                   then { (addSpawn x e.t m.hyp.maxLat) with createCredit := x.createCredit + 4 } else x
           let w := w.setInst x
           -- (a record that the decoders cannot read, or an empty one, starts a round as well)
           if p.site == "checkKeyAndReelect" && !x.flag then w.setInst { x with trigs := (e.t :: x.trigs).take 2 } else w
@@ -545,11 +572,14 @@ def step (m : MState) (e : TEv) : MState :=
       let newest := match w0.live x.cfg.key with
         | some rr => rr.rev
         | none => (w0.tombs.lookup x.cfg.key).getD 0
+      let credit : Nat := match wv with
+        | none | some .empty => 4
+        | some (.own _ _ p) => if x.cfg.takeover ∧ x.cfg.prio > p then 1 else 0
+        | some (.raw _) => if x.cfg.takeover then 1 else 0
+      let x := if credit > 0 then addSpawn x e.t m.hyp.maxLat else x
       let x := { x with trigs := (e.t :: x.trigs).take 2,
-                        createCredit := x.createCredit + (match wv with
-                          | none | some .empty => 4
-                          | some (.own _ _ p) => if x.cfg.takeover ∧ x.cfg.prio > p then 1 else 0
-                          | some (.raw _) => if x.cfg.takeover then 1 else 0) }
+                        jitterSuspect := (match x.jitterSuspect with | some (d, msg) => if d = e.t then none else some (d, msg) | none => none),
+                        createCredit := x.createCredit + credit }
       if rev ≠ 0 ∧ rev < newest then { m with w := w0.setInst { x with lastStaleWev := e.t } } else { m with w := w0.setInst x }
   | .wdrop _ _ _ => { m with w := w0 }
   | .cancelCtx i =>
@@ -576,7 +606,9 @@ def step (m : MState) (e : TEv) : MState :=
   | .flag i b il tok lid =>
     match w0.inst? i with
     | none => { m with w := w0 }
-    | some x =>
+    | some x0 =>
+      let x := { x0 with gaugeLast := some b }
+      let w0 := w0.setInst x
       let w := checkW w0 (b = il) "C18" "gauge-differs-from-flag" s!"instance {i}: gauge {b} but IsLeader() {il}"
       if il then
         -- the flag is raised (or re-asserted)
@@ -627,7 +659,7 @@ def step (m : MState) (e : TEv) : MState :=
       let w := checkW w0 (f = x.lastTo) "C18" "transition-chain-broken" s!"instance {i}: transition {f}→{t} but previous state was {x.lastTo}"
       let w := checkW w (stateDocumented f ∧ stateDocumented t) "C18" "undocumented-state" s!"instance {i}: {f}→{t}"
       let w := checkW w (¬ (x.stoppedSince.isSome ∧ t ≠ 5)) "C18" "transition-after-stop" s!"instance {i}: {f}→{t} after its stop returned"
-      { m with w := w.setInst { x with lastTo := t } }
+      { m with w := w.setInst { x with lastTo := t, transCount := x.transCount + 1 } }
   | .promote i tok cid dn =>
     match w0.inst? i with
     | none => { m with w := w0 }
@@ -687,6 +719,7 @@ def step (m : MState) (e : TEv) : MState :=
       let w := match a.kind, r with
         | .start, .ok =>
           ({ w with apis := w.apis.map fun (a : ApiCall) => if a.inst = i then { a with superseded := true } else a } : World).updInst i fun x =>
+            let x := addSpawn x e.t m.hyp.maxLat
             { x with runToks := [], orphanTok := none, stoppedSince := none, stopCalledSince := none, everStarted := true, lastTo := 1, startedAt := e.t, candidateSince := e.t, lastMissAt := none, trigs := [], createCredit := x.createCredit + 1 }   -- (Start's own attempt is not a round: it does not wait)
         | .stop, .ok =>
           -- a Start called while this stop was in progress begins a new run: the stop's guarantees end there
@@ -769,6 +802,21 @@ def step (m : MState) (e : TEv) : MState :=
                    s!"instance {i}: promotion context {c.cid} (token {c.tok}) still live after its term ended") w
       { m with w := w }
   | .observe _ => { m with w := w0 }
+  -- C18, the library's own Prometheus implementation (leader/metrics.go) next to the recording one: it accepts every call
+  -- the election makes, and what a scrape shows when the scenario ends is what the election last said
+  | .metricsPanic i meth =>
+    { m with w := failW w0 "C18" "metrics-call-rejected" s!"instance {i}: the Prometheus implementation panicked in {meth} (label set it does not accept)" }
+  | .promGauge i v =>
+    match w0.inst? i with
+    | none => { m with w := w0 }
+    | some x =>
+      let want : Int := match x.gaugeLast with | none => -1 | some true => 1 | some false => 0
+      { m with w := checkW w0 (v = want) "C18" "scraped-gauge-differs" s!"instance {i}: election_is_leader reads {v}, the last value the election set is {want} (-1: never set)" }
+  | .promTrans i n =>
+    match w0.inst? i with
+    | none => { m with w := w0 }
+    | some x =>
+      { m with w := checkW w0 (n = x.transCount) "C18" "scraped-transitions-differ" s!"instance {i}: election_transitions_total sums to {n}, the election recorded {x.transCount} transitions" }
   | .snap i st il lid tok =>
     -- C18: whenever it is taken - also while a transition is under way - a snapshot is coherent in itself
     let w := checkW w0 (il = decide (st = 2)) "C18" "snapshot-incoherent" s!"instance {i}: Status() returned State={st} with IsLeader={il}"
